@@ -38,6 +38,8 @@ UNITS = [
          bound="`-cw=v`, c ASCII alphanumeric, w ASCII, v any byte"),
     dict(unit="K02.disambiguate_short_two_letters", harness="k02_disambiguate_short_two_letters", tags=["C02"], quick=False, complete=False,
          bound="clusters `-xy`, x,y in {a,b,c}, every subset of {a,b,c} as declared short flags and as declared short arguments"),
+    dict(unit="K04.construct_double_dash_3args", harness="k04_construct_double_dash_3args", tags=["C09", "C10", "C03"], quick=False, complete=False,
+         bound="3 arguments, each one of `--`, `--k=v`, `x` (27 command lines)"),
     dict(unit="K05.shell_quote_ascii2", harness="k05_shell_quote_ascii2", tags=["C15"], quick=True, complete=False,
          features="autocomplete", bound="all ASCII strings of length 2"),
     dict(unit="K05.shell_quote_ascii3", harness="k05_shell_quote_ascii3", tags=["C15"], quick=False, complete=False,
@@ -46,16 +48,14 @@ UNITS = [
          bound="2 items from {-a, -b, word} with every ledger; std::env::var_os nondeterministic; flag with and without an absent value"),
     dict(unit="K10.argument_line_beats_env", harness="k10_argument_line_beats_env", tags=["C18", "C02"], quick=True, complete=False, stubbing=True,
          bound="2 items from {-a, -b, word} with every ledger; std::env::var_os nondeterministic"),
-    dict(unit="K14.first_line_two_tokens", harness="k14_first_line_two_tokens", tags=["C12", "C04"], quick=True, complete=False,
+    dict(unit="K14.first_line_two_tokens", harness="k14_first_line_two_tokens", tags=["C12", "C04"], quick=False, complete=False,
          bound="two Text tokens over 2+2 ASCII bytes"),
     # K08 / K09: documentation leaves
     dict(unit="K08.escape_special_one_fragment", harness="k08_escape_special_one_fragment", tags=["C16"], quick=True, complete=False,
-         features="docgen", bound="one Special/SpecialNoNewline fragment of 2 ASCII bytes, both apostrophe modes"),
-    dict(unit="K08.escape_line_start_inherited", harness="k08_escape_line_start_inherited", tags=["C16"], quick=False, complete=False,
-         features="docgen", bound="two fragments (Unescaped|Special then Special), 2+1 free ASCII bytes"),
+         features="docgen", bound="one Special/SpecialNoNewline fragment of 2 free ASCII bytes; straight-line checks on the first three output bytes"),
     dict(unit="K08.escape_spaces_control_line_argument", harness="k08_escape_spaces_control_line_argument", tags=["C16"], quick=True, complete=False,
-         features="docgen", bound="one Spaces fragment of 2 ASCII bytes"),
-    dict(unit="K09.change_style_all_pairs", harness="k09_change_style_all_pairs", tags=["C16"], quick=True, complete=True,
+         features="docgen", bound="one Spaces fragment: 1 free ASCII byte followed by `x`"),
+    dict(unit="K09.change_style_all_pairs", harness="k09_change_style_all_pairs", tags=["C16"], quick=False, complete=True,
          features="docgen", bound="all 8 x 8 style pairs (loop free, full domain)"),
 ]
 
